@@ -25,7 +25,7 @@ Quiescent == /\ lpc = "select" /\ \A c \in Clients : out[c] = <<>> /\ calls[c] =
              /\ \A w \in DOMAIN closed : (w \in DOMAIN seenClose /\ seenClose[w] = closed[w]) \/ closed[w] = 0
 \* a new execution starts: the previous one must be complete
 TReset == /\ IsEvent("reset") /\ Quiescent
-          /\ db' = 0 /\ lpc' = "select" /\ lreq' = None /\ pending' = {} /\ watchers' = {}
+          /\ db' = 0 /\ vals' = <<0>> /\ lpc' = "select" /\ lreq' = None /\ pending' = {} /\ watchers' = {}
           /\ wkind' = <<>> /\ subAt' = <<>> /\ delivered' = <<>> /\ closed' = <<>> /\ closedErr' = <<>>
           /\ out' = [c \in Clients |-> <<>>] /\ acked' = [c \in Clients |-> 0]
           /\ calls' = [c \in Clients |-> <<>>] /\ nops' = [c \in Clients |-> 0] /\ acks' = <<>>
@@ -33,7 +33,7 @@ TReset == /\ IsEvent("reset") /\ Quiescent
 
 SC == UNCHANGED seenClose
 TInvoke == /\ IsEvent("invoke") /\ SC
-           /\ \/ ev.op = "update"  /\ IssueUpdate(ev.c, ev.ok)
+           /\ \/ ev.op = "update"  /\ IssueUpdate(ev.c, ev.ok, ev.inc)
               \/ ev.op = "observe" /\ IssueObserve(ev.c, ev.w, ev.kind)
               \/ ev.op = "cancel"  /\ IssueCancel(ev.c, ev.w)
               \/ ev.op = "hangup"  /\ IssueHangup(ev.c)
@@ -54,7 +54,7 @@ VisitOf(w) == (lpc = "notify" /\ Notify(w)) \/ (lpc = "adding" /\ lreq.w = w /\ 
 \* the callback was handed the value of the observer's expression on state ev.db
 TDeliver == /\ IsEvent("deliver") /\ SC /\ VisitOf(ev.w)
             /\ Len(delivered'[ev.w]) = Len(delivered[ev.w]) + 1
-            /\ delivered'[ev.w][Len(delivered'[ev.w])] = ev.db
+            /\ vals[delivered'[ev.w][Len(delivered'[ev.w])] + 1] = ev.db     \* the payload of that state
 Bump(w) == seenClose' = Ext(seenClose, w, IF w \in DOMAIN seenClose THEN seenClose[w] + 1 ELSE 1)
 \* close with an error: the observer's expression failed on the current state
 TCloseErr == /\ IsEvent("close") /\ ev.err /\ VisitOf(ev.w) /\ Bump(ev.w)
